@@ -1,12 +1,13 @@
 /-
   Props/C19GenClock.lean — the regenerated `(*Pll).Do` (Gen/Leaf.lean) driving the clock object.
 
-  The PLL side is the code as it is in /repo now (`adjustments_Pll_Do`); the clock side is still
-  the hand-written model `Model/SysClock.lean` of driver/clocks/sysclk_linux.go: the leaf
-  translator covers `SystemClock.Drift` only — `Epoch/Step/Adjust` take a mutex, start a goroutine
-  and call `clock_adjtime`, which the translator does not read (request in the builder report).
-  Their tie remains the verbatim statement pins `C19_pin_sysclk_*` and the live runs of harness
-  c19clk.
+  The PLL side is the code as it is in /repo now (`adjustments_Pll_Do`). The clock side is the
+  hand-written model `Model/SysClock.lean` in the first part and — since the eighth generation of
+  the leaf translator reads `Epoch/Step/Adjust`, the `clock_adjtime` wrappers and the expiry
+  goroutine (Gen/LeafClocks.lean, Props/LeafC19Clock.lean) — THE REGENERATED CLOCK in the last part
+  (`C19_gen_clock_call`, `C19_gen_clock_epoch`, `C19_gen_product_clock`): every `Step`/`Adjust` the
+  regenerated `Do` records, executed by the regenerated method on the regenerated clock, is the
+  product model's `PllClock.call`, with the system calls (the `Timex` values) it stands for.
 
   `C19_gen_product`: running the generated `Do` with `l.clk.Epoch()` = the clock object's epoch and
   executing its recorded `Step`/`Adjust` calls on the clock model IS `PllClock.update` of the
@@ -14,6 +15,7 @@
 -/
 import ScionTime.Props.C19Gen
 import ScionTime.Props.C19Clock
+import ScionTime.Props.LeafC19Clock
 namespace ScionTime.Props.C19Gen
 open ScionTime ScionTime.F64 ScionTime.Pll ScionTime.Gen.Leaf ScionTime.LeafTieC19 ScionTime.Props.C19
 
@@ -112,5 +114,76 @@ example :
     PllClock.calls (pl l1) (pl l2) SysClock.init [] [.step 5000000] = .ok { pll := pl l2, clk := c2 } [.setOffset 5000000] ∧
     (genDo l2 5000000 w (clkEpoch c2) 108000000002 fzero).map (fun r => (r.1.mode, r.1.epoch, r.2)) =
       some (1, 1, []) := by decide +kernel
+
+/-! ## the regenerated PLL on the regenerated clock -/
+
+open ScionTime.LeafTieC19Clock in
+/-- one recorded clock call of `Do`, executed by the regenerated method (both `clock_adjtime` calls
+    succeed) -/
+def genCall (c : S_SystemClock) (w : Go.World) : Go.ClkAction → Go.Out (S_SystemClock × Go.World)
+  | .step o => clocks_SystemClock_Step c o w false false
+  | .adjust o d f => clocks_SystemClock_Adjust c o d f w false
+
+open ScionTime.LeafTieC19Clock in
+/-- what `l.clk.Epoch()` returns on the regenerated clock is what the product model reads -/
+theorem C19_gen_clock_epoch (c : S_SystemClock) (w : Go.World) (p : List SysClock.Adj) :
+    clkEpoch (sc c w p) = clocks_SystemClock_Epoch c := by
+  unfold clkEpoch SysClock.epoch sc clocks_SystemClock_Epoch
+  simp
+
+open ScionTime.LeafTieC19Clock in
+/-- **Every clock call the regenerated `Do` records, executed by the regenerated clock method, is the
+    product model's call**: same clock state afterwards (for the list of started goroutines the model
+    keeps), the same system actions — as the `clock_adjtime` arguments `enc` spells out — appended to
+    the world, and a panic exactly when the model's call panics. -/
+theorem C19_gen_clock_call (c : S_SystemClock) (w : Go.World) (p : List SysClock.Adj) (a : Go.ClkAction) :
+    match PllClock.call (sc c w p) (act a) with
+    | .ok s acts => ∃ c' w', genCall c w a = .ok (c', w') ∧ sc c' w' s.pending = s ∧
+        w'.acts = w.acts ++ acts.flatMap enc
+    | .panic _ _ _ => ∃ m, genCall c w a = .panic m := by
+  cases a with
+  | step o =>
+    have h := C19_leaf_clock_Step c o w p
+    simp only [PllClock.call, act, genCall]
+    cases hm : SysClock.step (sc c w p) o.toInt with
+    | ok s acts =>
+      rw [hm] at h
+      obtain ⟨c', w', h1, h2, h3⟩ := h
+      have hp : s.pending = p := by rw [← h2]; rfl
+      exact ⟨c', w', h1, by rw [hp]; exact h2, h3⟩
+    | panic k s acts => rw [hm] at h; exact ⟨_, h⟩
+  | adjust o d f =>
+    have h := C19_leaf_clock_Adjust c o d f w p
+    simp only [PllClock.call, act, genCall]
+    cases hm : SysClock.adjust (sc c w p) o.toInt d.toInt f with
+    | ok s acts =>
+      rw [hm] at h
+      obtain ⟨c', w', a, h1, h2, h3, h4⟩ := h
+      exact ⟨c', w', h1, by rw [h2]; exact h3, h4⟩
+    | panic k s acts => rw [hm] at h; exact ⟨_, h⟩
+
+open ScionTime.LeafTieC19Clock in
+/-- `C19_gen_product` with the regenerated clock on the clock side: the regenerated `Do`, reading the
+    regenerated `Epoch()`, determines the product model's update on the view `sc c w p` of that
+    clock. -/
+theorem C19_gen_product_clock (l : S_Pll) (c : S_SystemClock) (wd : Go.World) (p : List SysClock.Adj)
+    (now : Int) (off : Int64) (w pw : F64) :
+    match genDo l off w (clocks_SystemClock_Epoch c) now pw with
+    | none => ∃ k, PllClock.update { pll := pl l, clk := sc c wd p } now off.toInt w pw = .pllPanic k
+    | some (l', acts) =>
+      PllClock.update { pll := pl l, clk := sc c wd p } now off.toInt w pw =
+        PllClock.calls (pl l) (pl l') (sc c wd p) [] (acts.map act) := by
+  have hc : (sc c wd p).epoch ≤ SysClock.maxU64 := by
+    have := UInt64.toNat_lt c.epoch
+    simp only [sc, SysClock.maxU64]; omega
+  rw [← C19_gen_clock_epoch c wd p]
+  exact C19_gen_product l (sc c wd p) hc now off w pw
+
+/-- non-vacuity: the 5 ms step the regenerated PLL records, executed by the regenerated `Step` on a
+    fresh regenerated clock: one `clock_adjtime` in nanosecond mode with `{0 s, 5000000 ns}`, epoch 1 -/
+example : (match genCall LeafTieC19Clock.c0 LeafTieC19Clock.w0 (.step 5000000) with
+    | .ok (c, w) => some (c.epoch, w.acts)
+    | _ => none) = some (1, [.clockAdjtime 0 { Modes := 0x2100, Time := (0, 5000000) }]) := by
+  decide +kernel
 
 end ScionTime.Props.C19Gen
